@@ -9,7 +9,7 @@ from ..engines.schemas import range_parts
 from ..tables.ledger_table import T as TABLE
 from .. import lemmas
 from .common import configs_for
-from .util import Rule, guarded, site_of_block
+from .util import Rule, guarded, site_of_block, check_visits_all
 from . import models
 
 TITLE = "wrap_columns lays text out in aligned columns, column-major, never failing"
@@ -149,7 +149,7 @@ def _index(prog, rep, m, cw):
     D = lambda t: describe(t, body)[:160]
     WL = m.wrap_call
     L = ("call", "Vec::len", (WL,))
-    lpc_want = poly(("bin", "Div", L, m.columns)) + poly(prog.simp(("call", "From::from", (("bin", "Gt", ("bin", "Rem", L, m.columns), ("int", 0)),)), body))
+    lpc_want = poly(("bin", "Div", L, m.columns)) + poly(prog.simp(("cast", "IntToInt", ("bin", "Gt", ("bin", "Rem", L, m.columns), ("int", 0)), "usize"), body))
     kind, st, en = range_parts(m.outer.source) if m.outer.source[0] == "adt" else (None, None, None)
     r.check(kind == "range" and st == ("int", 0) and poly(en) == lpc_want, "rows",
             "rows range over 0..(L/columns + (L % columns > 0))", D(m.outer.source),
@@ -186,6 +186,8 @@ def _row(prog, rep, m, cw, iw, getcall):
     rep_ = lambda n: ("call", "str::repeat", (("str", " "), n))
     dw = lambda x: ("call", "crate::core::display_width", (x,))
     cell = ("field", ("as", getcall, "Some"), "0")
+    check_visits_all(r5, body, m.inner, "the column loop of wrap_columns")
+    check_visits_all(r5, body, m.outer, "the row loop of wrap_columns")
     trans = loop_system(prog, body, m.inner, [], [m.row])
     last_pad = rep_(("bin", "Rem", iw, cw))
     seen = {"some": 0, "none": 0, "last": 0, "mid": 0}
@@ -283,6 +285,16 @@ def run(prog, rep):
             return
         _row(prog, rep, m, cw, iw, g[0])
     guarded(rep, "C20.R2", KEY, rest)
+    # equal row widths: the padding of a cell is computed with display_width, whose additivity over the cell text and
+    # the padding (C10) makes every padded cell exactly column_width wide, also for text with escape sequences
+    from .. import lemmas
+    lemmas.load_all()
+    st = lemmas.status(prog, "C10")
+    if st == "ok":
+        rep.ok("C20.R6", "crate", "lemma C10 holds in this run", "evaluated: ok", nontrivial=False)
+    else:
+        rep.violation("C20.R6", "crate", "lemma:C10", "crate", "lemma C10 is %s in this run: display_width is not additive, so padded "
+                      "cells do not all have the column width and rows differ in width" % st)
 
 
 def _lemma_r3(prog):
